@@ -1057,6 +1057,7 @@ def _inep_run(rig, script):
         lost_last = False
         last_what = None
         prev_erdy = False
+        n_accepts = 0
         quiet = 0
         ctx.set(gen.address, INEP_ADDR)
         maxc = script.get("max_cycles", 3000)
@@ -1146,6 +1147,8 @@ def _inep_run(rig, script):
                         veto = True
                     if t < w.get("at", 0):
                         veto = True                       # absolute cycle (offset sweeps)
+                    if n_accepts < w.get("after_accepts", 0):
+                        veto = True                       # directed: the buffer is still empty when that ACK arrives
                     if w.get("with") == "accept" and not (ack is not None and ack["what"] == "accept"):
                         veto = True                       # directed: hold the word until the accepting ACK's cycle
                     if w.get("with") == "poll" and not (ack is not None and ack["what"] == "poll"):
@@ -1218,6 +1221,7 @@ def _inep_run(rig, script):
                                "during_erdy": bool(ctx.get(ho.send_erdy) or (gen_busy and want_kind == "erdy"))})
                 if ack["what"] == "accept":
                     hexp = (hexp + 1) % 32
+                    n_accepts += 1
                 last_what = ack["what"]
                 hstate = "wait" if ack["nump"] >= 1 else "idle"
                 decision = None
@@ -1296,6 +1300,8 @@ def _inep_run(rig, script):
                     and flow_nrdy and not erdy_seen:
                 host_active = False                                    # waiting for an ERDY that may never come
             producer_waiting = wi < len(words) and (wgap > 0 or t < words[wi].get("at", 0))   # a timer is running
+            if wi < len(words) and n_accepts < words[wi].get("after_accepts", 0) and (host_active or hstate == "wait"):
+                producer_waiting = True
             quiet = 0 if (len(events) > n_ev or tx_valid or gen_busy or host_active or producer_waiting) else quiet + 1
             await ctx.tick("ss")
             t += 1
@@ -1558,6 +1564,58 @@ def _inep_sweeps(mps=8):
     return out
 
 
+def _inep_histories(mps=8):
+    """History family (integrator hint C46-2): a retry is requested for the data packet that follows every kind of
+    predecessor -- zero-length / short / full packet -- whose acknowledgement was either combined with the next
+    request (NumP=1) or separate (NumP=0, then a poll), with the next packet already buffered or arriving only after
+    that ACK.  The ZLP histories run on endpoint 0 with the ZLP at sequence number 0 (32 packets earlier), where the
+    known undriven-parameter deviation of ZLPs is invisible, and acknowledge the boundary packet with NumP=1 and never
+    retry the ZLP itself (the two other known ZLP deviations).  (name, script, epn)"""
+    A = set(INEP_AVOID_ALL)
+    out = []
+
+    def words_of(data, last, **kw):
+        return [dict({"bytes": data[i:i + 4], "last": last and i + 4 >= len(data), "gap": 0}, **kw)
+                for i in range(0, len(data), 4)]
+    for pred in ("zlp", "short", "full"):
+        for combined in (True, False):
+            for buffered in (True, False):
+                nprefix = 31 if pred == "zlp" else 2
+                words, host = [], [{"k": "poll", "d": 10}]
+                for k in range(nprefix):
+                    words += words_of([(k * 8 + j) % 251 for j in range(mps)], False)
+                    host.append({"k": "accept", "d": 2, "nump": 1})
+                if pred == "short":
+                    words += words_of([200 + j for j in range(mps - 2)], True)
+                else:
+                    words += words_of([150 + j for j in range(mps)], pred == "zlp")
+                n_before = nprefix + 1                           # packets acknowledged before the predecessor's ACK
+                if pred == "zlp":
+                    host.append({"k": "accept", "d": 2, "nump": 1})      # boundary packet: combined -> immediate ZLP
+                    n_before += 1
+                nxt = words_of([90 + j for j in range(mps)], False) + words_of([30 + j for j in range(mps)], False)
+                if not buffered:
+                    for w in nxt:
+                        w["after_accepts"] = n_before
+                    nxt[0]["gap"] = 3
+                words += nxt
+                # the predecessor's acknowledgement, then the retry of the following data packet
+                if combined:
+                    host.append({"k": "accept", "d": 3, "nump": 1})
+                    if not buffered:
+                        host.append({"k": "poll_after_erdy", "d": 2, "timeout": None})
+                else:
+                    host.append({"k": "accept", "d": 3, "nump": 0})
+                    host.append({"k": "poll_after_erdy" if not buffered else "poll", "d": 4, "timeout": None})
+                host += [{"k": "retry", "d": 3}, {"k": "retry", "d": 2}, {"k": "accept", "d": 3, "nump": 1},
+                         {"k": "retry", "d": 2}, {"k": "accept", "d": 3, "nump": 0}]
+                out.append(("retry_after_%s_%s_%s" % (pred, "combined" if combined else "separate",
+                                                       "buffered" if buffered else "late"),
+                            {"words": words, "host": host, "seed": 7, "hq": "fast", "txr": "fast", "other": 0.0,
+                             "avoid": A - {"ack_without_next"}, "max_cycles": 4000}, 0))
+    return out
+
+
 def _inep_classify(trace, matched, status, meta):
     """Normalised cause of a rejection (for the known deviations of the experimental endpoint)."""
     _env_guard(status, meta)
@@ -1572,12 +1630,40 @@ def _inep_classify(trace, matched, status, meta):
         return {"clause": status, "pattern": "handshake_endpoint_number_not_driven"}
     if status == "tp_subtype_differs_from_request" and rec.get("want") == "erdy" and rec.get("kind") == "nrdy":
         return {"clause": status, "pattern": "erdy_request_sent_as_nrdy"}
-    zlp_involved = rec.get("zlp") or (dps and dps[-1]["zlp"]) or \
-        (rec.get("e") == "dp" and any(e["e"] == "w" and e["last"] and e["completes"] and
-                                      sum(len(x["bytes"]) for x in ours[:ours.index(e) + 1] if x["e"] == "w") % trace["cfg"]["maxpkt"] == 0
-                                      for e in ours if e["e"] == "w"))
-    if rec.get("e") == "dp" and zlp_involved:
-        return {"clause": "dp", "detail": status, "pattern": "zero_length_packet_sequencing"}
+    # Known ZLP deviations (finding zero_length_packet_sequencing), recognised by their own manifestations only:
+    #  (i)   a zero-length packet whose sequence / endpoint parameters are the undriven zeros,
+    #  (ii)  anything after the host asked for a retry of a zero-length packet (the resend advances the sequence),
+    #  (iii) anything after a boundary-ending packet was acknowledged with NumP = 0 (the deferred ZLP path does not
+    #        advance the sequence number).
+    # A data packet answered / retried wrongly in any other history is NOT covered (e.g. a ZLP sent where a data
+    # packet had to be resent).
+    if rec.get("e") == "dp":
+        mps_ = trace["cfg"]["maxpkt"]
+        zlp_params = rec.get("zlp") and status in ("dp_sequence", "dp_endpoint", "retry_sequence") \
+            and rec["seq"] == 0 and rec["epn"] == 0
+        zlp_retry = any(e["e"] == "ack" and e.get("what") == "retry" and
+                        next((d["zlp"] for d in reversed(ours[:k]) if d["e"] == "dp"), False)
+                        for k, e in enumerate(ours))
+        acc_bytes, boundary_end = 0, set()
+        for e in ours:
+            if e["e"] == "w":
+                acc_bytes += len(e["bytes"])
+                if e["last"] and acc_bytes % mps_ == 0:
+                    boundary_end.add(acc_bytes)
+        sent, deferred = 0, False
+        for k, e in enumerate(ours):
+            if e["e"] == "dp" and not e["zlp"]:
+                prev_ack = next((x for x in reversed(ours[:k]) if x["e"] == "ack"), None)
+                if not (prev_ack and prev_ack.get("what") == "retry"):
+                    sent += len(e["bytes"])
+            if e["e"] == "ack" and e.get("what") == "accept" and e["nump"] == 0 and sent in boundary_end:
+                lastdp = next((d for d in reversed(ours[:k]) if d["e"] == "dp"), None)
+                if lastdp is not None and not lastdp["zlp"]:
+                    deferred = True
+        if zlp_params or zlp_retry or deferred:
+            return {"clause": "dp", "detail": status, "pattern": "zero_length_packet_sequencing"}
+        if rec.get("zlp") and status in ("retry_payload", "dp_payload", "dp_without_request"):
+            return {"clause": status, "pattern": "zero_length_packet_sent_instead_of_data"}
     if rec.get("e") == "dp" and status in ("dp_length", "dp_sequence", "dp_endpoint") and len(rec["beats"]) == 1 \
             and rec["len"] == 0 and rec["seq"] == 0 and rec["epn"] == 0:
         return {"clause": "dp_parameters", "detail": status, "pattern": "single_beat_packet_parameters_not_driven"}
@@ -1702,6 +1788,10 @@ def check_C46(rep):
             # "strobe" = the endpoint's own requests (also those the busy generator cannot take): the endpoint must
             # ask for the ERDY; "req" = what the generator accepted: the ERDY must actually go out
             record(ev, info, epn, mps, "offset-sweep", "sweep", views=("strobe", "req"), chkep=True, name=name)
+    for mps in (8, 12):                                   # retry-after-every-predecessor history family
+        for name, sc, epn in _inep_histories(mps):
+            ev, info = _inep_run(rig_for(epn, mps), sc)
+            record(ev, info, epn, mps, "history-family", "sweep", views=("strobe", "req"), chkep=True, name=name)
     for name, sc, view, chkep, epn in _inep_witnesses(8):
         ev, info = _inep_run(rig_for(epn, 8), sc)
         record(ev, info, epn, 8, "directed", "witness", views=(view,), chkep=chkep, name=name)
